@@ -20,6 +20,8 @@ def run_case(ctx, case):
     rec.case(case, nontrivial=p >= 1)
     rec.count("mode", mode)
     rec.count("weights", "rational" if W is not None else "polynomial")
+    form = form_of(case)
+    rec.count("nodes-as", form)
     curve = make_curve(U, P, W)
     if c.get("twin"):
         # the same request on float data first: whatever the library memoises on (numerically equal) knot tuples is now float
@@ -44,13 +46,13 @@ def run_case(ctx, case):
             return
     start = curve_state(curve)
     if tol == "default":
-        r = impl(lambda: curve.knot_remove(list(nodes)))
+        r = impl(lambda: curve.knot_remove(as_form(nodes, form)))
         mtol = F(1, 10**9)
     elif tol is None:
-        r = impl(lambda: curve.knot_remove(list(nodes), None))
+        r = impl(lambda: curve.knot_remove(as_form(nodes, form), None))
         mtol = None
     else:
-        r = impl(lambda: curve.knot_remove(list(nodes), tol))
+        r = impl(lambda: curve.knot_remove(as_form(nodes, form), tol))
         mtol = tol
     after = curve_state(curve)
     m = drv.call("curve.remove", *curve_args(*start), nodes, mtol)
